@@ -64,7 +64,7 @@ def panicDocumented (op : String) (args : Array String) : Bool :=
   match op with
   | "Decimal.Sign" | "Decimal.Int64_" | "Decimal.Int32_" | "Decimal.Uint64" | "Decimal.Uint32" | "api.Float" => isNaN
   | "Decimal.Payload_" | "api.Payload" => !isNaN
-  | "api.Int" | "api.Rat" | "api.RatRoundTrip" => isNaN || isInf
+  | "api.Int" | "api.Rat" | "api.RatRoundTrip" | "Decimal.Int_" | "Decimal.Rat" => isNaN || isInf
   | "api.MustParse" | "MustParse" => true
   | _ => false
 
